@@ -43,6 +43,8 @@ def run(rep, tier, seed, replay):
         m = mo[i] if i < len(mo) else "MISSING"
         full = io[i] if i < len(io) else "MISSING"
         o = full.partition(" || ")[0]
+        if full.startswith("SKIPPED-AFTER-HANGS"):
+            continue
         viol = G.oracle(case, full)
         if case.startswith("T "):
             outcomes["T"] += 1
